@@ -159,6 +159,7 @@ Holds(e, name) ==
     [] name = "C12_Residual" ->
          C12_Residual(g, IntFieldOf(g, cf.alpha), cf.dt, IntFieldOf(g, cf.old), MatOf(o.Aspatial),
                       IntFieldOf(g, o.gamma), FieldOf(g, o.r_solve))
+    [] name = "C12_History" -> C04_Solves(g, FieldOf(g, cf.xstar2), FieldOf(g, o.r_history))
     [] name = "C12_FixedPoint" -> C04_Solves(g, FieldOf(g, cf.xstar), FieldOf(g, o.r_fixed))
     [] name = "C12_ExplicitStep" ->
          C12_ExplicitStep(g, o.dt_explicit, FieldOf(g, o.in_explicit), FieldOf(g, o.rhs_explicit),
@@ -215,6 +216,8 @@ Holds(e, name) ==
     [] name = "C11_Arithmetic" -> FaceFieldOf(g, o.arithmean) = ArithmeticMean(g, FieldOf(g, cf.phi))
     [] name = "C11_Harmonic"   -> FaceFieldOf(g, o.harmmean) = HarmonicMean(g, FieldOf(g, cf.phi))
     [] name = "C11_Upwind"     -> FaceFieldOf(g, o.upmean) =
+                                    UpwindMean(g, FieldOf(g, cf.phi), FaceFieldOf(g, cf.u))
+    [] name = "C11_UpwindRepeat" -> FaceFieldOf(g, o.upmean_again) =
                                     UpwindMean(g, FieldOf(g, cf.phi), FaceFieldOf(g, cf.u))
     [] name = "C11_Geometric"  -> C11_GeoRelation(g, FieldOf(g, cf.phi), FaceFieldOf(g, o.geomean))
     [] name = "C11_Between" ->
